@@ -5,6 +5,7 @@ import (
 	"errors"
 	"fmt"
 	"sort"
+	"strconv"
 	"strings"
 	"time"
 
@@ -261,6 +262,7 @@ func Run(c *engine.Ctx) {
 	}
 	everyAlgorithm(c)
 	purlTypeQueries(c)
+	keyCompositions(c)
 	lookups(c, idNames)
 	afterMutation(c)
 	wide(c)
@@ -940,4 +942,70 @@ func purlTypeQueries(c *engine.Ctx) {
 			})
 		}
 	}
+}
+
+// keyCompositions: digests as a value class against whatever key an index builds from (algorithm, digest). For every
+// ordered pair of distinct algorithm numbers (a, b) the list holds one node with {b: v} and the probe carries {a: X},
+// X running over the compositions of the two numbers and the digest - v itself, the decimal digits of b that follow
+// those of a (when a's digits are a prefix of b's) in front of v, b's digits with and without a separator in front of
+// v - alone and next to a second probe hash. Two nodes that have no algorithm in common never match by digest.
+func keyCompositions(c *engine.Ctx) {
+	c.Group("match-key-compositions")
+	var algs []int
+	for a := range sbom.HashAlgorithm_name {
+		algs = append(algs, int(a))
+	}
+	algs = append(algs, 99, 100)
+	sort.Ints(algs)
+	const v = "abc"
+	n := 0
+	for _, a := range algs {
+		for _, b := range algs {
+			if a == b {
+				continue
+			}
+			da, db := strconv.Itoa(a), strconv.Itoa(b)
+			xs := []string{v, db + v, db + ":" + v, ":" + v, db + "-" + v, da + v}
+			if strings.HasPrefix(db, da) && len(db) > len(da) {
+				xs = append(xs, db[len(da):]+v, db[len(da):]+":"+v)
+			}
+			for xi := range xs {
+				for second := 0; second < 2; second++ {
+					a, b, x, second := a, b, xs[xi], second
+					n++
+					c.Case(func() any {
+						return map[string]any{"group": "match-key-compositions", "list-algorithm": b, "probe-algorithm": a, "probe-digest": x, "second-probe-hash": second == 1}
+					}, func(t *engine.T) *engine.Violation {
+						nl := &sbom.NodeList{Nodes: []*sbom.Node{{Id: "n0", Hashes: map[int32]string{int32(b): v}}, {Id: "n1", Hashes: map[int32]string{int32(a): "zz"}}}}
+						probe := &sbom.Node{Id: "p", Hashes: map[int32]string{int32(a): x}}
+						if second == 1 {
+							probe.Hashes[1000] = "other"
+						}
+						got, err := nl.GetMatchingNode(probe)
+						want := refMatch(nl.Nodes, probe)
+						t.Transitions(1)
+						t.Validated(1)
+						obs, w := "nil", "nil"
+						if err != nil {
+							obs = "ambiguous"
+						} else if got != nil {
+							obs = got.Id
+						}
+						if want.err {
+							w = "ambiguous"
+						} else if want.id != "" {
+							w = want.id
+						}
+						if obs != w {
+							return engine.Violate("match-rule", "key-composition", "list node {%d: %q}, probe {%d: %q}: GetMatchingNode gives %s, documented rule gives %s", b, v, a, x, obs, w)
+						}
+						t.State(fmt.Sprint("keycomp", a, b, x, second))
+						t.Outcome("key-composition-ok:" + obs)
+						return nil
+					})
+				}
+			}
+		}
+	}
+	c.Bound("match-key-compositions", fmt.Sprintf("%d cases: every ordered pair of %d algorithm numbers x the compositions of the two numbers and the digest as the probe's digest x {alone, next to a second probe hash}", n, len(algs)))
 }
